@@ -11,11 +11,18 @@ is left untouched):
     of the compilation error, and their comparison.
   * building-block bookkeeping (`Book`): which ids are live, how many user-visible modes each one
     has and how many modes it occupies when it is added to a parent.
+  * CALLER-OWNED DATA (`Client`): the client's own containers - the ndarray work buffer a unitary block is read
+    from, the dictionary handed to mode_swaps, the list handed to barrier - are RE-USED: refilled for the next
+    call, overwritten, cleared (`scrub`), and what the library hands out (U, U_full, heralds) is written into
+    (`scribble`).  Pseudo-ops ["client", cfg] / ["scrub", kind, how] / ["scribble", id, attr, how] (never seen by
+    the model: for the model a matrix is a value).
 """
 
 from __future__ import annotations
 
 import math
+
+import numpy as np
 
 import circgen as cg
 import lightworks as lw
@@ -129,12 +136,12 @@ def diff(a: dict, b: dict, tol: float = 1e-12):
 def for_model(prog: list) -> list:
     """the program as the driver knows it: a copy with frozen Parameters is a copy (Parameters are never re-set in these
     histories, so a Parameter is its value)"""
-    return [["copy", *op[1:]] if op[0] == "copyf" else op for op in prog]
+    return [["copy", *op[1:]] if op[0] == "copyf" else op for op in prog if op[0] not in CLIENT_PSEUDO]
 
 
 def well_formed(prog: list) -> bool:
     """circgen.well_formed on the real ops (pseudo-ops such as ["read", ...] are skipped)"""
-    return cg.well_formed(for_model([op for op in prog if op[0] != "read"]))
+    return cg.well_formed(for_model([op for op in prog if op[0] != "read" and op[0] not in CLIENT_PSEUDO]))
 
 
 # --------------------------------------------------------------------------- size bookkeeping
@@ -349,3 +356,184 @@ class Book:
             self.prog.append(cg.op_ps(cid, rng.randrange(n), rng.choice(CIRCLE)))
         self.herald(cid, rng.randrange(n), rng.randrange(n), rng.choice([0, 1]))
         return cid
+
+
+# --------------------------------------------------------------------------- caller-owned data
+#
+# circgen.apply_op builds a fresh ndarray / dict / list for every call and drops it afterwards, which is how tests are
+# written and not how clients work: a client fills ONE work buffer with the next block in a loop, keeps one dictionary
+# for its permutations, resets its matrix to the identity when it is done.  Whatever the library was given is an input
+# value: every object built from it must be unaffected by what the client does with its own container afterwards, and
+# the call must leave the container as the client filled it.
+
+CLIENT_PSEUDO = ("client", "scrub", "scribble")
+CLIENT_UNITARY = ["buffer", "buffer", "view", "fortran"]
+SCRUB_HOW = {"unitary": ["identity", "zero", "negate", "transpose", "permute"], "swaps": ["clear", "rotate", "junk"],
+             "modes": ["clear", "append", "reverse"]}
+SCRIBBLE_ATTR = ["U", "U_full", "heralds"]
+SCRIBBLE_HOW = ["zero", "scale", "elem"]
+
+
+def rand_client_cfg(rng) -> dict:
+    return {"unitary": rng.choice(CLIENT_UNITARY), "swaps": "shared" if rng.random() < 0.8 else "fresh",
+            "modes": "shared" if rng.random() < 0.8 else "fresh"}
+
+
+def rand_scrub(rng, kind: str | None = None) -> list:
+    kind = kind or rng.choice(["unitary", "unitary", "unitary", "swaps", "modes"])
+    return ["scrub", kind, rng.choice(SCRUB_HOW[kind])]
+
+
+class Client:
+    """the client's own containers.  cfg: unitary = buffer (one C-ordered complex array per block size) | view (the
+    leading k x k corner of one large array: blocks of different sizes overlap) | fortran (column-major buffer) |
+    fresh (as circgen does); swaps / modes = shared (one dict / list for all calls) | fresh"""
+
+    def __init__(self, cfg: dict | None = None) -> None:
+        cfg = dict(cfg or {})
+        self.unitary = cfg.get("unitary", "buffer")
+        self.swaps_mode = cfg.get("swaps", "shared")
+        self.modes_mode = cfg.get("modes", "shared")
+        self.bufs: dict = {}
+        self.big = None
+        self.swaps: dict = {}
+        self.modes: list = []
+        self.used: set = set()      # kinds of container that were handed to the library so far
+        self.problems: list = []    # calls that changed the container they were given
+
+    def _buffer(self, sz: int):
+        if self.unitary == "view":
+            if self.big is None or self.big.shape[0] < sz:
+                self.big = np.zeros((max(8, sz), max(8, sz)), dtype=complex)
+                self.bufs.clear()
+            self.bufs[sz] = self.big[:sz, :sz]
+        elif sz not in self.bufs:
+            self.bufs[sz] = np.zeros((sz, sz), dtype=complex, order="F" if self.unitary == "fortran" else "C")
+        return self.bufs[sz]
+
+    def apply(self, pool: dict, op: list, params: dict | None = None) -> str:
+        name = op[0]
+        if name == "unitary" and self.unitary != "fresh":
+            u = np.array([[complex(GQ.parse(x)) for x in r] for r in op[2]], dtype=complex)
+            buf = self._buffer(u.shape[0])
+            buf[...] = u
+            self.used.add("unitary")
+            try:
+                pool[op[1]] = lw.Unitary(buf)
+                r = "ok"
+            except Exception as e:  # noqa: BLE001
+                r = exc_class(e)
+            if not np.array_equal(buf, u):
+                self.problems.append(f"Unitary(array) ({r}) changed the array it was given")
+            return r
+        if name == "swaps" and self.swaps_mode == "shared":
+            want = {k: v for k, v in op[2]}
+            d = self.swaps
+            d.clear()
+            d.update(want)
+            self.used.add("swaps")
+            try:
+                pool[op[1]].mode_swaps(d)
+                r = "ok"
+            except Exception as e:  # noqa: BLE001
+                r = exc_class(e)
+            if list(d.items()) != list(want.items()):
+                self.problems.append(f"mode_swaps(dict) ({r}) changed the dictionary it was given")
+            return r
+        if name == "barrier" and self.modes_mode == "shared" and op[2] is not None:
+            lst = self.modes
+            lst[:] = op[2]
+            self.used.add("modes")
+            try:
+                pool[op[1]].barrier(lst)
+                r = "ok"
+            except Exception as e:  # noqa: BLE001
+                r = exc_class(e)
+            if lst != list(op[2]):
+                self.problems.append(f"barrier(list) ({r}) changed the list it was given")
+            return r
+        return apply_op(pool, op, params)
+
+    def scrub(self, kind: str, how: str) -> bool:
+        """the client overwrites / clears / refills its own container(s) of one kind; False when the library was never
+        given one (nothing can depend on it)"""
+        if kind not in self.used:
+            return False
+        if kind == "unitary":
+            arrs = [self.big] if self.unitary == "view" else list(self.bufs.values())
+            for a in arrs:
+                if how == "identity":
+                    a[...] = np.eye(a.shape[0])
+                elif how == "zero":
+                    a[...] = 0
+                elif how == "negate":
+                    a *= -1
+                elif how == "transpose":
+                    a[...] = a.T.copy()
+                else:  # rows cycled: another unitary
+                    a[...] = np.roll(a, 1, axis=0) * 1j
+        elif kind == "swaps":
+            d = self.swaps
+            if how == "clear":
+                d.clear()
+            elif how == "rotate":
+                ks = list(d)
+                vs = [d[k] for k in ks]
+                for k, v in zip(ks, vs[1:] + vs[:1]):
+                    d[k] = v
+                if len(ks) < 2:
+                    d[0], d[1] = 1, 0
+            else:
+                d[97] = 98
+        else:
+            lst = self.modes
+            if how == "clear":
+                lst.clear()
+            elif how == "append":
+                lst += [97, -3]
+            else:
+                lst.reverse()
+                lst.append(0)
+        return True
+
+
+def scribble(pool: dict, cid: str, attr: str, how: str) -> str | None:
+    """the client writes into what the library handed out for object `cid` (a post-processing step in place);
+    returns what was written into, None when there was nothing to write into"""
+    c = pool.get(cid)
+    if c is None:
+        return None
+    try:
+        if attr == "heralds":
+            h = c.heralds
+            h["input"][97] = 1
+            h["output"].clear()
+            h["junk"] = {0: 0}
+            return "the dictionary returned by .heralds"
+        m = getattr(c, attr)
+    except Exception:  # noqa: BLE001  (does not compile: nothing is handed out)
+        return None
+    if not isinstance(m, np.ndarray) or m.ndim != 2 or not m.size:
+        return None
+    if not m.flags.writeable:
+        return f"the read-only matrix returned by .{attr} (left alone)"
+    if how == "zero":
+        m[...] = 0
+    elif how == "scale":
+        m *= 2j
+    else:
+        m[0, -1] += 1
+    return f"the matrix returned by .{attr}"
+
+
+def step(pool: dict, op: list, params: dict | None, client: "Client | None") -> str:
+    """one REAL op, through the client's containers when there is a client"""
+    return client.apply(pool, op, params) if client is not None else apply_op(pool, op, params)
+
+
+def client_of(prog: list) -> "Client | None":
+    """the Client a program asks for with its ["client", cfg] pseudo-op (None: fresh containers per call)"""
+    for op in prog:
+        if op[0] == "client":
+            return Client(op[1])
+    return None
